@@ -520,6 +520,12 @@ impl Scenario for C11S {
             }
         }
         let st = &sim::g().stats;
+        // the unrelated child spawned at a seeded instant (possibly in the middle of a library
+        // operation on another thread) must not have inherited anything the library owns
+        if st.inherited_fds > 0 {
+            let k = &st.inherited_by_kind;
+            out.viol("inherited-by-child:exec", format!("a child process spawned by the program inherited {} descriptor(s) of the library (sockets {}, listeners {}, shared memory {}, epoll {}, dup {}, received {}): they were open without FD_CLOEXEC at that instant", st.inherited_fds, k[sim::K_SOCK as usize], k[sim::K_LISTEN as usize], k[sim::K_SHM as usize], k[sim::K_EPOLL as usize], k[sim::K_DUP as usize], k[sim::K_RECEIVED as usize]));
+        }
         if st.bad_close > 0 {
             out.viol("double-close:close", format!("close() failed {} times (EBADF): the library closed a descriptor twice or one it never had", st.bad_close));
         }
